@@ -423,6 +423,10 @@ class ExitStack:
         :param context: the context
         :param base_context: the latest context we would adjust
         """
+        # an exit handler re-raised the exception it received: nothing to stitch,
+        # and linking the exception to itself would create a cycle
+        if exception is context:
+            return
         # we may have receive a child exception of the one that needs stitching
         # walk the contexts until we reach a root exception (no context) or our
         # own base context
